@@ -21,6 +21,10 @@ type Parser struct {
 	data []byte
 	pos  int
 	ops  []Operation
+
+	// operands collected since the last operator (per parser, so that
+	// operands of one parse can never leak into another)
+	operands []core.Object
 }
 
 // NewParser creates a new content stream parser for the given data.
@@ -51,9 +55,6 @@ func (p *Parser) Parse() ([]Operation, error) {
 	return p.ops, nil
 }
 
-// operandStack temporarily holds operands until we hit an operator
-var operandStack []core.Object
-
 // parseNext parses the next token, which is either an operand (pushed onto the
 // stack) or an operator (which consumes the operand stack and creates an Operation).
 func (p *Parser) parseNext() error {
@@ -78,7 +79,7 @@ func (p *Parser) parseNext() error {
 		return fmt.Errorf("at position %d: %w", start, err)
 	}
 
-	operandStack = append(operandStack, operand)
+	p.operands = append(p.operands, operand)
 	return nil
 }
 
@@ -107,14 +108,14 @@ func (p *Parser) parseOperator() error {
 	// Create operation with current operand stack
 	operation := Operation{
 		Operator: operator,
-		Operands: make([]core.Object, len(operandStack)),
+		Operands: make([]core.Object, len(p.operands)),
 	}
-	copy(operation.Operands, operandStack)
+	copy(operation.Operands, p.operands)
 
 	p.ops = append(p.ops, operation)
 
 	// Clear operand stack
-	operandStack = nil
+	p.operands = nil
 
 	return nil
 }
